@@ -24,10 +24,10 @@ TESTS=$(grep -h '^func Test' $COPIED | sed 's/func \(Test[A-Za-z0-9_]*\).*/\1/' 
 echo "demo tests: $TESTS in ./$DIR"
 W0=$(go test -vet=off -count=1 -run "^($TESTS)\$" ./$DIR 2>&1 | tail -3 | tr '\n' ' ')
 echo "without patch: $W0"
-git apply "$M/patch.diff" || { echo "PATCH DOES NOT APPLY"; rm -f $COPIED; exit 2; }
+git apply "$M/patch.diff" 2>/dev/null || git apply -3 "$M/patch.diff" || { echo "PATCH DOES NOT APPLY"; rm -f $COPIED; git reset -q --hard; exit 2; }
 W1=$(go test -vet=off -count=1 -run "^($TESTS)\$" ./$DIR 2>&1 | grep -E '^(--- FAIL|FAIL|ok|panic)' | head -4 | tr '\n' ' ')
 echo "with patch:    $W1"
 rm -f $COPIED
 SUITE=$(go test -vet=off -count=1 ./... 2>&1 | grep -v '^ok' | head -4 | tr '\n' ' ')
 echo "suite with patch: ${SUITE:-all ok}"
-git checkout -q -- .
+git reset -q --hard
